@@ -540,7 +540,9 @@ def main():
     t_start = time.time()
 
     allh = discover()
-    hs = [h for h in allh if pid in h["ids"]]
+    # tier=unshipped: instances that were measured and have no verdict within reach (kept in the harness
+    # files with the measurement, run only when named with --only): never part of quick or thorough
+    hs = [h for h in allh if pid in h["ids"] and (h["tier"] != "unshipped" or args.only)]
     if args.tier == "quick":
         hs = [h for h in hs if h["tier"] == "quick"]
     if args.only:
@@ -583,7 +585,7 @@ def main():
                     members.add("turmoil-fs")
                 make_overlay(overlay / g, sorted(members), use_real_indexmap=args.real_indexmap,
                              tokio_model=(g == "core" and tokio_model_needed("turmoil")),
-                             path_model=(g == "fsm"))
+                             path_model=(g == "fsm" or (g == "leaf" and "turmoil-io-uring" in members)))
         finally:
             if lockf:
                 fcntl.flock(lockf, fcntl.LOCK_UN)
